@@ -505,19 +505,18 @@ class Taylor3D(object):
             keyt = (key,)
         else:
             keyt = key
-        # terms of the lhs that the rhs does not contain are zero in the rhs:
-        rhsnl = {(nv, lv) for nv, lv, cv in value.coefflist}
+        lhsnl = {(n, l) for n, l, c in self.coefflist}
+        if any((nv, lv) not in lhsnl for nv, lv, cv in value.coefflist):
+            raise ValueError("Attempted to do setitem where the rhs contains terms not present in lhs")
+        # clear the block everywhere (terms that the rhs does not contain are zero in the rhs), then add each
+        # rhs term into the first lhs entry with its (n,l), so that repeated (n,l) entries on either side sum up
         for n, l, c in self.coefflist:
-            if (n, l) not in rhsnl:
-                c[(slice(0, None, None),) + keyt] = 0
+            c[(slice(0, None, None),) + keyt] = 0
         for nv, lv, cv in value.coefflist:
-            matched = False
             for n, l, c in self.coefflist:
                 if n == nv and l == lv:
-                    matched = True
-                    c[(slice(0, None, None),) + keyt] = cv
-            if not matched:
-                raise ValueError("Attempted to do setitem where the rhs contains terms not present in lhs")
+                    c[(slice(0, None, None),) + keyt] += cv
+                    break
 
     def __str__(self):
         """Human readable string representation"""
